@@ -60,9 +60,10 @@ theorem aMain_all (ctx : ACtx R) (objs : List AllocReq) (db : DB R) :
   dsimp only
   split
   · rename_i db3 h
-    refine ⟨fun hI => ?_, cleanupThen_all _ _⟩
+    refine ⟨fun hI => ?_, .done _⟩
     have f1 := updateConsumers_evo (N := N) ctx.done db hI
-    exact f1.trans (aMain_res_evo h f1.ids)
+    have f2 := f1.trans (aMain_res_evo h f1.ids)
+    exact f2.trans (deleteConsumersIfNoAllocs_evo db3 _ f2.ids)
   · exact ⟨QEvo.refl N db, cleanupThen_all _ _⟩
 
 /-! ### building the allocation objects -/
